@@ -255,6 +255,22 @@ def _accessor_uses(f):
                 children_idx.add(f'const:{n.slice.value}')
             else:
                 children_idx.add('var')
+    # ctx handed to a helper of the visitor (`for section, content in self._fragments(ctx)`): what the helper does
+    # with its context parameter counts as this method's consumption of the children
+    if f.cls is not None and not getattr(f, '_malsa_in_helper', False):
+        for n in own_nodes(f.node):
+            if isinstance(n, ast.Call) and isinstance(n.func, ast.Attribute) and n.func.attr in f.cls.methods \
+                    and n.func.attr != f.name and not n.func.attr.startswith('visit') \
+                    and n.args and isinstance(n.args[0], ast.Name) and n.args[0].id == ctxn:
+                h = f.cls.methods[n.func.attr]
+                if len(h.params) > 1:
+                    try:
+                        h._malsa_in_helper = True
+                        hu, hc = _accessor_uses(h)
+                    finally:
+                        h._malsa_in_helper = False
+                    for k_, v_ in hu.items():
+                        uses.setdefault(k_, set()).update(v_)
     # ctx handed to a helper of the visitor that reads <param>.children[<expr>] (`self._operator_nodes(ctx, n)`)
     if f.cls is not None:
         for n in own_nodes(f.node):
